@@ -65,6 +65,15 @@ def part_exhaustive(ctx, out, cases):
     out.extra['exhaustive_part'] = 'all DAGs over task_dep with <= %d tasks x 2 selections x serial + every schedule (capped) of thread/proc k=2' % sizes[-1]
 
 
+def part_edges(ctx, out, cases):
+    import runfam
+    for c in runfam.edge_family():
+        res = runlib.run_impl(c)
+        if 'skip' not in res:
+            add_case(out, cases, c, res, 'edge')
+    out.extra['edge_family_part'] = 'every edge kind x dependency outcome x processing order x flavour (runfam.edge_family)'
+
+
 def part_random(ctx, out, cases):
     n = ctx.n(260, 4000)
     skipped = 0
@@ -137,6 +146,7 @@ def run(ctx):
                 'k=1..4 with random schedules; non-trivial = distinct trace of a case with >=1 dependency edge and >=1 task start')
     cases = []
     part_exhaustive(ctx, out, cases)
+    part_edges(ctx, out, cases)
     part_random(ctx, out, cases)
     part_real_processes(ctx, out)
     out.evaluations = len(cases) + out.extra.get('real_multiprocessing_runs_oracle_only', 0)
